@@ -1,5 +1,166 @@
-// Embedded-CPython mode (filled in later).
+// Embedded CPython: observes what a Python caller of the extension module sees.
+use pyo3::prelude::*;
+use pyo3::types::{PyDict, PyList};
+use reclass_rs::verif_hooks as hooks;
+use reclass_rs::Reclass;
+use std::ffi::CString;
+use std::sync::Once;
+
 use crate::Toks;
+
+static INIT: Once = Once::new();
+
+pub fn init() {
+    INIT.call_once(|| {
+        pyo3::prepare_freethreaded_python();
+    });
+}
+
+const PRELUDE: &str = r#"
+def canon(o):
+    if o is None: return 'N'
+    if o is True: return 'T'
+    if o is False: return 'F'
+    if isinstance(o, int): return 'I%d' % o
+    if isinstance(o, float): return 'D' + repr(o).encode().hex()
+    if isinstance(o, str): return 'Q' + o.encode('utf-8', 'surrogatepass').hex()
+    if isinstance(o, list): return ' '.join(['L%d' % len(o)] + [canon(x) for x in o])
+    if isinstance(o, dict): return ' '.join(['M%d' % len(o)] + [canon(k) + ' ' + canon(v) for k, v in o.items()])
+    return 'X' + type(o).__name__
+
+def strs(l):
+    return ' '.join(['%d' % len(l)] + ['S' + x.encode().hex() for x in l])
+
+def exc(e):
+    return 'raise ' + type(e).__name__ + ' ' + str(e).encode().hex()
+"#;
+
+fn run_py(py: Python<'_>, locals: &Bound<'_, PyDict>, code: &str) -> Result<String, String> {
+    let full = format!("{PRELUDE}\n{code}");
+    py.run(&CString::new(full).unwrap(), Some(locals), None)
+        .map_err(|e| format!("python harness error: {e}"))?;
+    let out = locals
+        .get_item("out")
+        .map_err(|e| e.to_string())?
+        .ok_or("no out")?;
+    out.extract::<String>().map_err(|e| e.to_string())
+}
+
+/// nodeinfo(name) as seen from Python: parameters (attribute view), as_dict() view, classes,
+/// applications, metadata; exceptions as `raise <Type> <msg hex>`.
+pub fn py_node(r: &Reclass, name: &str, nodes_root: &str) -> Result<String, String> {
+    init();
+    Python::with_gil(|py| {
+        let locals = PyDict::new(py);
+        let robj = r.clone().into_pyobject(py).map_err(|e| e.to_string())?;
+        locals.set_item("r", robj).map_err(|e| e.to_string())?;
+        locals.set_item("name", name).map_err(|e| e.to_string())?;
+        locals.set_item("nodes_root", nodes_root).map_err(|e| e.to_string())?;
+        run_py(
+            py,
+            &locals,
+            r#"
+try:
+    ni = r.nodeinfo(name)
+    try:
+        p = ni.parameters
+        d = ni.as_dict()
+        meta = ni.__reclass__
+        out = ('ok P ' + canon(p) + ' || D ' + canon(d['parameters']) + ' || C ' + strs(ni.classes) + ' || DC ' + strs(d['classes'])
+               + ' || A ' + strs(ni.applications) + ' || DA ' + strs(d['applications'])
+               + ' || META ' + strs([meta.node, meta.name, meta.uri.replace(nodes_root, '<NODES>'), meta.environment])
+               + ' || DMETA ' + strs([d['__reclass__']['node'], d['__reclass__']['name'], d['__reclass__']['uri'].replace(nodes_root, '<NODES>'), d['__reclass__']['environment'], d['environment']])
+               + ' || KEYS ' + strs(sorted(d.keys())))
+    except BaseException as e:
+        out = 'conv ' + exc(e)
+except BaseException as e:
+    out = exc(e)
+"#,
+        )
+    })
+}
+
+pub fn py_inventory(r: &Reclass) -> Result<String, String> {
+    init();
+    Python::with_gil(|py| {
+        let locals = PyDict::new(py);
+        let robj = r.clone().into_pyobject(py).map_err(|e| e.to_string())?;
+        locals.set_item("r", robj).map_err(|e| e.to_string())?;
+        run_py(
+            py,
+            &locals,
+            r#"
+try:
+    inv = r.inventory()
+    d = inv.as_dict()
+    def ix(m):
+        return ' '.join('S' + k.encode().hex() + ' ' + strs(m[k]) for k in sorted(m))
+    out = ('ok A ' + ix(inv.applications) + ' || C ' + ix(inv.classes) + ' || N ' + strs(sorted(inv.nodes.keys()))
+           + ' || DA ' + ix(d['applications']) + ' || DC ' + ix(d['classes']) + ' || DN ' + strs(sorted(d['nodes'].keys()))
+           + ' || SAME ' + ('T' if all(canon(d['nodes'][n]['parameters']) == canon(inv.nodes[n].parameters) for n in d['nodes']) else 'F')
+           + ' || KEYS ' + strs(sorted(d.keys())))
+except BaseException as e:
+    out = exc(e)
+"#,
+        )
+    })
+}
+
+fn yaml_to_py<'py>(py: Python<'py>, y: &serde_yaml::Value) -> Result<Bound<'py, PyAny>, String> {
+    use serde_yaml::Value as Y;
+    Ok(match y {
+        Y::Null => py.None().into_bound(py),
+        Y::Bool(b) => pyo3::types::PyBool::new(py, *b).to_owned().into_any(),
+        Y::Number(n) => {
+            if let Some(i) = n.as_i64() {
+                i.into_pyobject(py).map_err(|e| e.to_string())?.into_any()
+            } else if let Some(u) = n.as_u64() {
+                u.into_pyobject(py).map_err(|e| e.to_string())?.into_any()
+            } else {
+                n.as_f64().unwrap().into_pyobject(py).map_err(|e| e.to_string())?.into_any()
+            }
+        }
+        Y::String(s) => s.into_pyobject(py).map_err(|e| e.to_string())?.into_any(),
+        Y::Sequence(l) => {
+            let pl = PyList::empty(py);
+            for x in l {
+                pl.append(yaml_to_py(py, x)?).map_err(|e| e.to_string())?;
+            }
+            pl.into_any()
+        }
+        Y::Mapping(m) => {
+            let d = PyDict::new(py);
+            for (k, v) in m {
+                d.set_item(yaml_to_py(py, k)?, yaml_to_py(py, v)?).map_err(|e| e.to_string())?;
+            }
+            d.into_any()
+        }
+        Y::Tagged(_) => return Err("tagged in dict".into()),
+    })
+}
+
+/// Config.from_dict(inventory_path, dict) through Python.
+pub fn py_from_dict(inv: &str, entries: &[(String, serde_yaml::Value)]) -> Result<Result<hooks::Config, String>, String> {
+    init();
+    Python::with_gil(|py| {
+        let d = PyDict::new(py);
+        for (k, v) in entries {
+            d.set_item(k, yaml_to_py(py, v)?).map_err(|e| e.to_string())?;
+        }
+        let ty = py.get_type::<hooks::Config>();
+        match ty.call_method1("from_dict", (inv, d)) {
+            Ok(c) => {
+                let c: hooks::Config = c.extract().map_err(|e| e.to_string())?;
+                Ok(Ok(c))
+            }
+            Err(e) => {
+                let is_value_error = e.is_instance_of::<pyo3::exceptions::PyValueError>(py);
+                Ok(Err(format!("{}{e}", if is_value_error { "" } else { "NOT-ValueError: " })))
+            }
+        }
+    })
+}
+
 pub fn run(_t: &mut Toks) -> Result<String, String> {
-    Err("py mode not implemented".into())
+    Err("use inv mode ops pynode / pyinv".into())
 }
